@@ -79,6 +79,7 @@ def property_checks(p):
         except Exception:
             continue
         tag = "" if i == 0 else " (after a sibling screen)"
+        A(("a screen is only built when its stencil covariance admits the factorisation that defines A%s" % tag, 0.0 if ic.factorisable(s) else 1.0, 0.0))
         N = s.requested_nx_size
         gen.row_len = s.nx_size           # record the innovation vector of every step
         bad_affine = 0.0
@@ -158,6 +159,8 @@ def falsify(ctx, deep=False):
         f.append({"kind": "fried", "nx": 6, "ps": 2, "r0": 1.5, "L0": 30.0, "extra": 2})
         # near the edge of what the Cholesky factorisation accepts (huge outer scale in pixels): known finding
         f.append({"kind": "vk", "nx": 8, "ps": 0.05, "r0": 0.1, "L0": 2000.0, "extra": 2})
+        # sampling so fine against the outer scale that the stencil covariance is numerically singular (the library refuses these)
+        f.append({"kind": "vk", "nx": rng.choice([8, 16]), "ps": 0.01, "r0": 0.2, "L0": rng.choice([1e3, 1e4]), "extra": rng.choice([1, 2]), "steps": 12})
         # fine sampling of a long outer scale (L0 / pixel between 5 000 and 15 000: centimetre pixels, L0 of tens of metres),
         # below the regime of the known finding (>= 2e4) -- the recursion is stable here and must stay so
         q_ = rng.choice([5000.0, 8000.0, 12000.0, 15000.0]); ps_ = rng.choice([0.005, 0.01, 0.02])
@@ -217,8 +220,15 @@ def replay(payload):
 def classify(v, known):
     if known["id"] == "C05-vk-unstable-near-ill-conditioning":
         inp = v["input"]
-        return (v["clause"].startswith("row recursion is stable") and inp.get("kind") == "vk"
-                and float(inp["L0"]) / float(inp["ps"]) >= 2e4)
+        if not (v["clause"].startswith("row recursion is stable") and inp.get("kind") == "vk" and float(inp["L0"]) / float(inp["ps"]) >= 2e4):
+            return False
+        # the finding is about screens whose covariance the library DID factorise; an unstable recursion on a covariance that does
+        # not factorise (some substitute inverse was used) is something else
+        try:
+            s_ = ic.make_screen("vk", inp["nx"], inp["ps"], inp["r0"], inp["L0"], inp["extra"], ic.ScriptedGenerator(1))
+            return ic.factorisable(s_)
+        except Exception:
+            return True
     return False
 
 
